@@ -111,6 +111,13 @@ def workload(tier, seed, scale=1.0):
             cmds.append(cmd_sh('C10', 'shr', ty, rand_digits(rnd, 3, 0), s, 'U', cell=('sh', 'shr', ty, 'U', 'max')))
             cmds.append(cmd_sh('C10', 'shr', ty, -rand_digits(rnd, 3, 0), s, 'I', cell=('sh', 'shr', ty, 'I', 'max')))
             cmds.append(cmd_sh('C10', 'shl', ty, 0, s, 'I', cell=('sh', 'shl', ty, 'I', 'max0')))
+    # by-value division forms on operands sharing whole low zero digits / with small quotients (the owning div_rem has its own code)
+    from .c03 import constructed
+    for fam, a, b in constructed(rng_for(seed + 11, 'C10', tier), 10 if quick else 40):
+        if fam in ('shared-low-zeros', 'small-quotient', 'vanishing-remainder'):
+            for op in ('div', 'rem'):
+                cmds.append(cmd_bb('C10', op, a, b, 'U', cell=('bb-' + fam, op, 'U')))
+                cmds.append(cmd_bb('C10', op, -a, b * rnd.choice((1, -1)), 'I', cell=('bb-' + fam, op, 'I')))
     # negative values whose trailing-zero count straddles the range of the shift-amount type (rounding of >> on negatives
     # compares the zero count with the amount: the comparison must not happen in the amount's own width)
     for ty in UTYPES + ITYPES:
